@@ -94,8 +94,9 @@ func (r *Runner) runOne(ex *vm.Explorer, inst *vm.Instance, perInst time.Duratio
 	res := &InstResult{Inst: inst}
 	t0 := time.Now()
 	s := ex.S
-	q0, s0, u0, k0, st0 := s.Queries, s.NSat, s.NUnsat, s.NUnknown, s.SolveTime
-	e0 := len(s.Errors)
+	so := ex.SO
+	q0, s0, u0, k0, st0 := s.Queries+so.Queries, s.NSat+so.NSat, s.NUnsat+so.NUnsat, s.NUnknown+so.NUnknown, s.SolveTime+so.SolveTime
+	e0, eo0 := len(s.Errors), len(so.Errors)
 	if perInst > 0 {
 		ex.Deadline = time.Now().Add(perInst)
 	} else {
@@ -132,9 +133,10 @@ func (r *Runner) runOne(ex *vm.Explorer, inst *vm.Instance, perInst time.Duratio
 	for _, sm := range ex.Samples {
 		res.Samples = append(res.Samples, Sample{Instance: inst.ID, PCSize: len(sm.PC), Inputs: sm.PS.Inputs, Observed: sm.PS.Observations})
 	}
-	res.Queries, res.NSat, res.NUnsat, res.NUnknown = s.Queries-q0, s.NSat-s0, s.NUnsat-u0, s.NUnknown-k0
-	res.SolverS = (s.SolveTime - st0).Seconds()
+	res.Queries, res.NSat, res.NUnsat, res.NUnknown = s.Queries+so.Queries-q0, s.NSat+so.NSat-s0, s.NUnsat+so.NUnsat-u0, s.NUnknown+so.NUnknown-k0
+	res.SolverS = (s.SolveTime + so.SolveTime - st0).Seconds()
 	res.Errors = append(res.Errors, s.Errors[e0:]...)
+	res.Errors = append(res.Errors, so.Errors[eo0:]...)
 	res.WallS = time.Since(t0).Seconds()
 	res.Called = ex.M.Called
 	res.Stubs = ex.M.Stubs
@@ -159,7 +161,17 @@ func (r *Runner) RunAll(insts []*vm.Instance, perInst time.Duration) []*InstResu
 				panic(err)
 			}
 			defer s.Close()
+			so, err := sym.NewSolverOpt(r.Solver, sym.NewCtx(), r.QueryMs, false)
+			if err != nil {
+				panic(err)
+			}
+			defer so.Close()
+			if lp := os.Getenv("GOSYM_SMTLOG"); lp != "" {
+				f, _ := os.Create(lp)
+				so.Log = f
+			}
 			ex := vm.NewExplorer(r.Prog, s)
+			ex.SO = so
 			for i := range ch {
 				out[i] = r.runOne(ex, insts[i], perInst)
 				mu.Lock()
